@@ -739,21 +739,24 @@ func ruleReceiverBound(c *Ctx, rule string) {
 		c.check(okSub && len(storesToField(fn, win)) == 1, rule, name+": window reduced by exactly the item's size", w.At(push[0]), "window -= measure(item)", "accept does not subtract exactly measure(item) from the window on the enqueue path")
 		// error on the true edge is ResourceExhausted
 		okErr := false
-		forEachReturnValue(fn, 0, func(v ssa.Value, at ssa.Instruction) {
-			if isNilConst(v) {
-				return
-			}
-			if u, ok := stripConv(v).(*ssa.UnOp); ok {
-				if g, ok := u.X.(*ssa.Global); ok {
-					if code, ok := c.globalStatusCode(g); ok && code == 8 {
-						okErr = true
-					} else {
-						c.fail(rule, name+": overrun error code", w.At(at), fmt.Sprintf("overrun returns %s whose status code is not ResourceExhausted", g.Name()))
-					}
+		forEachReturnValue(fn, 0, func(rv ssa.Value, at ssa.Instruction) {
+			for _, vc := range valueCases(rv, 0) { // incl. what a private helper holding the enqueue returns
+				v := vc.Val
+				if isNilConst(v) {
+					continue
 				}
-			} else if call, ok := stripConv(v).(*ssa.Call); ok {
-				if k, ok := constInt(call.Call.Args[0]); ok && k == 8 {
-					okErr = true
+				if u, ok := stripConv(v).(*ssa.UnOp); ok {
+					if g, ok := u.X.(*ssa.Global); ok {
+						if code, ok := c.globalStatusCode(g); ok && code == 8 {
+							okErr = true
+						} else {
+							c.fail(rule, name+": overrun error code", w.At(at), fmt.Sprintf("overrun returns %s whose status code is not ResourceExhausted", g.Name()))
+						}
+					}
+				} else if call, ok := stripConv(v).(*ssa.Call); ok && len(call.Call.Args) > 0 {
+					if k, ok := constInt(call.Call.Args[0]); ok && k == 8 {
+						okErr = true
+					}
 				}
 			}
 		})
@@ -770,6 +773,13 @@ func stripToCall(v ssa.Value) *ssa.Call {
 			v = x.X
 		case *ssa.Call:
 			return x
+		case *ssa.Parameter:
+			// handed to a private helper (e.g. the size measured before the lock is taken)
+			a := crossParameter(x)
+			if a == nil {
+				return nil
+			}
+			v = a
 		default:
 			return nil
 		}
@@ -1131,7 +1141,13 @@ func ruleQueueDiscipline(c *Ctx, rule string) {
 		closedFlag, cancelFlag := c.closeCancelFlags(r)
 		okDrain := true
 		nExits := 0
-		forEachReturnValue(fn, 1, func(v ssa.Value, at ssa.Instruction) {
+		okIdx := 1 // the "an item is returned" result: the bool result, wherever a split-off helper puts it
+		for i := 0; i < fn.Signature.Results().Len(); i++ {
+			if b, isB := fn.Signature.Results().At(i).Type().Underlying().(*types.Basic); isB && b.Kind() == types.Bool {
+				okIdx = i
+			}
+		}
+		forEachReturnValue(fn, okIdx, func(v ssa.Value, at ssa.Instruction) {
 			if !isConstBool(v, false) {
 				return
 			}
